@@ -498,25 +498,42 @@ def fill_context(context: Context) -> None:
             fill_context(context)
         return
 
-    for _ in range(100):
-        if TYPE_CHECKING:
-            from typing import ContextManager, AsyncContextManager
+    discarded_errors: List[Exception] = []
+    try:
+        for _ in range(100):
+            if TYPE_CHECKING:
+                from typing import ContextManager, AsyncContextManager
 
-            assert isinstance(context.obj, (ContextManager, AsyncContextManager))
-        elaborate_context(context.obj, context)
-        inner_mgr = unwrap_context(context.obj, context)
-        if inner_mgr is None:
-            break
-        if inner_mgr == PRUNE:
-            context.hide = True
-            break
-        context.obj = inner_mgr
-        context.inner_stack = None
-        context.children = ()
-    else:
-        inner_mgr = unwrap_context(context.obj, context)  # type: ignore
-        raise RuntimeError(
-            f"{context.obj!r} has been unwrapped more than 100 times "
-            f"without reaching something irreducible; probably an "
-            f"infinite loop? (next result is {inner_mgr!r})"
+                assert isinstance(context.obj, (ContextManager, AsyncContextManager))
+            elaborate_context(context.obj, context)
+            inner_mgr = unwrap_context(context.obj, context)
+            if inner_mgr is None:
+                break
+            if inner_mgr == PRUNE:
+                context.hide = True
+                break
+            # The inner manager replaces the outer one entirely, including
+            # whatever stack was extracted to describe the outer one. If an
+            # error was recorded on that stack, it still needs to be reported.
+            if context.inner_stack is not None and context.inner_stack.error is not None:
+                discarded_errors.append(context.inner_stack.error)
+            context.obj = inner_mgr
+            context.inner_stack = None
+            context.children = ()
+        else:
+            inner_mgr = unwrap_context(context.obj, context)  # type: ignore
+            raise RuntimeError(
+                f"{context.obj!r} has been unwrapped more than 100 times "
+                f"without reaching something irreducible; probably an "
+                f"infinite loop? (next result is {inner_mgr!r})"
+            )
+    except Exception as ex:
+        if not discarded_errors:
+            raise
+        discarded_errors.append(ex)
+    if len(discarded_errors) == 1:
+        raise discarded_errors[0]
+    if discarded_errors:
+        raise ExceptionGroup(
+            "multiple errors encountered while extracting stack", discarded_errors
         )
